@@ -291,8 +291,9 @@ def r5_simulator_cascade(ctx: Context) -> None:
 
 
 def run(ctx: Context) -> None:
-    r1_admission(ctx)
-    r2_ilp_deadline(ctx)
-    r3_space_time_gating(ctx)
-    c15.r5_on_time(ctx, rule="C12.R4")
-    r5_simulator_cascade(ctx)
+    ctx.isolate(r1_admission)
+    ctx.isolate(r2_ilp_deadline)
+    ctx.isolate(r3_space_time_gating)
+    ctx.isolate(c15.r5_on_time, rule="C12.R4")
+    ctx.isolate(c15.r1b_deadline_sorted, rule="C12.R4b")
+    ctx.isolate(r5_simulator_cascade)
